@@ -42,6 +42,13 @@ def apply_actions(d, s, lst, problem_objects=None, **kw):
     return _aa(d, s, lst, **kw)
 
 
+def agent_of(c, agents):
+    for a in c[1]:
+        if a in agents:
+            return a
+    return None
+
+
 def pick_members(ctx, W, S, ops, nmax):
     """-> list of calls (aname, args) by distinct agents, serialisable as a set in S"""
     agents = [o for o, ty in W.P["objects"].items() if ty == "agent"]
@@ -51,7 +58,7 @@ def pick_members(ctx, W, S, ops, nmax):
         if len(members) >= nmax:
             break
         c = G.gen_call(ops, W.D, W.P)
-        if c is None or not c[1] or c[1][0] in used:
+        if c is None or agent_of(c, agents) is None or agent_of(c, agents) in used:
             continue
         act = W.action(c[0])
         try:
@@ -64,7 +71,7 @@ def pick_members(ctx, W, S, ops, nmax):
         ok, final, why = interp.serialisable(S, [(W.action(a), args) for a, args in cand], W.D, W.objs)
         if ok:
             members = cand
-            used.add(c[1][0])
+            used.add(agent_of(c, agents))
         else:
             ctx.probes["interfering_candidate_rejected"] += 1
     return members
@@ -142,7 +149,7 @@ def run(ctx):
         # via the exporter: slots per agent
         slots = [None] * len(agents)
         for m in order:
-            slots[agents.index(m[1][0])] = m
+            slots[agents.index(agent_of(m, agents))] = m
         js = joint_string(slots)
         try:
             t = exporter.create_multi_agent_triplet(s0, js, p.objects)
@@ -190,7 +197,7 @@ def check_joint_plan(ctx, W, S, members, agents, d, p, ops):
                 break
         slots = [None] * len(agents)
         for m in group:
-            slots[agents.index(m[1][0])] = m
+            slots[agents.index(agent_of(m, agents))] = m
         ok, nxt, why = interp.serialisable(cur, [(W.action(a), args) for a, args in group], W.D, W.objs)
         assert ok
         plan.append(slots)
@@ -242,11 +249,11 @@ def check_joint_plan(ctx, W, S, members, agents, d, p, ops):
 def inject(ctx, W, S, members, agents, d, p, s0, ops):
     from pddl_plus_parser.multi_agent.common import apply_actions as _aa
     from pddl_plus_parser.models import ActionCall
-    used = {m[1][0] for m in members}
+    used = {agent_of(m, agents) for m in members}
     bad = None
     for _ in range(10):
         c = G.gen_call(ops, W.D, W.P)
-        if c is None or not c[1] or c[1][0] in used:
+        if c is None or agent_of(c, agents) is None or agent_of(c, agents) in used:
             continue
         try:
             if not interp.applicable(S, W.action(c[0]), c[1], W.D, W.objs):
